@@ -7,11 +7,13 @@ CONSTANTS
   SaNs = {}
   MonoNs = {5}
   PermAllN = 3
+  LawFams = {"full", "class", "arom", "single"}
 INVARIANT InvDom
 INVARIANT InvCycles
 INVARIANT InvMinBasis
 INVARIANT InvImplBasis
 INVARIANT InvRotatable
 INVARIANT InvTypeMaps
+INVARIANT InvExp
 INVARIANT InvRelabel
 CHECK_DEADLOCK FALSE
